@@ -300,3 +300,49 @@ def rule_rk_kinds(prog: Program, report: Report) -> None:
     # compile must not fall through without returning
     report.count("RK expression kinds", len(produced | handled | declared))
     report.expect_at_least("RK-kinds", "expression kinds", len(handled), 7)
+
+
+def rule_rk_bundled(prog: Program, report: Report) -> None:
+    """Bundled schemas: a parse rule's getAttrs supplies every attribute of its
+    node/mark that has no default (an element lacking the attribute yields None,
+    which is a value; a missing key makes compute_attrs raise)."""
+    report.rules.append("RK-bundled")
+    n = 0
+    for rel in ("prosemirror/schema/basic/schema_basic.py", "prosemirror/schema/list/schema_list.py"):
+        m = prog.module(rel)
+        for d in ast.walk(m.tree):
+            if not isinstance(d, ast.Dict):
+                continue
+            keys = {k.value: v for k, v in zip(d.keys, d.values) if isinstance(k, ast.Constant)}
+            if "attrs" not in keys or "parseDOM" not in keys or not isinstance(keys["attrs"], ast.Dict):
+                continue
+            required = [k.value for k, v in zip(keys["attrs"].keys, keys["attrs"].values) if isinstance(k, ast.Constant) and isinstance(v, ast.Dict) and not any(isinstance(kk, ast.Constant) and kk.value == "default" for kk in v.keys)]
+            if not required or not isinstance(keys["parseDOM"], ast.List):
+                continue
+            for rule in keys["parseDOM"].elts:
+                if not isinstance(rule, ast.Dict):
+                    continue
+                rk = {k.value: v for k, v in zip(rule.keys, rule.values) if isinstance(k, ast.Constant)}
+                if "tag" not in rk:
+                    continue
+                n += 1
+                where = f"{rel}::<spec with attrs {required}>"
+                ga = rk.get("getAttrs")
+                static = rk.get("attrs")
+                supplied: set[str] | None = None
+                if isinstance(ga, ast.Lambda) and isinstance(ga.body, ast.Dict):
+                    supplied = {k.value for k in ga.body.keys if isinstance(k, ast.Constant)}
+                elif isinstance(static, ast.Dict):
+                    supplied = {k.value for k in static.keys if isinstance(k, ast.Constant)}
+                elif ga is None and static is None:
+                    supplied = set()
+                if supplied is None:
+                    report.errors.append(f"RK-bundled: {rel}: rule {src(rk['tag'])} builds its attrs by an unrecognised idiom (cannot see which keys it supplies)")
+                    continue
+                missing = [r for r in required if r not in supplied]
+                if missing:
+                    report.violate("RK-bundled", where, rule, f"parse rule {src(rk['tag'])} does not supply {missing}", f"the attribute(s) {missing} have no default; a rule that does not always supply the key makes DOMParser.parse raise 'No value supplied for attribute' on an element that lacks it (HTML import must be total)", what="bundled parse rules supply every attribute without default")
+                else:
+                    report.ob("RK-bundled", where, f"rule {src(rk['tag'])} always supplies {required}")
+    report.count("RK bundled parse rules with required attrs", n)
+    report.expect_at_least("RK-bundled", "bundled parse rules with required attrs", n, 2)
